@@ -111,6 +111,7 @@ class Ctx(object):
         self.cur_case = None
         self.sub = None
         self.notes = []
+        self.hung = None  # Violation of the first call that never returned (watchdog)
 
     # ---- bookkeeping -------------------------------------------------------------------------
     def begin(self, check, case):
@@ -190,6 +191,8 @@ class Ctx(object):
     # ---- drivers -----------------------------------------------------------------------------
     def _guard(self, check_name, check_fn, case):
         """Evaluate one case; convert escaping mingus exceptions / hangs into violations."""
+        if self.hung is not None:
+            return  # a call never returned earlier in this shard: stop exploring, the hang is already reported
         self.begin(check_name, case)
         signal.setitimer(signal.ITIMER_REAL, WATCHDOG_S)
         try:
@@ -198,7 +201,11 @@ class Ctx(object):
             raise
         except WatchdogTimeout:
             signal.setitimer(signal.ITIMER_REAL, 0)
-            self.fail("%s/timeout" % check_name, "no answer within %d s" % WATCHDOG_S)
+            try:
+                self.fail("%s/timeout" % check_name, "no answer within %d s" % WATCHDOG_S)
+            except Violation as v:
+                self.hung = v
+                raise
         except RecursionError as e:
             self.fail("%s/exception/RecursionError" % check_name, repr(e))
         except Exception as e:
@@ -226,7 +233,7 @@ class Ctx(object):
                 k = (size_key(case) if size_key else len(json.dumps(jsonable(case), default=repr)))
                 if v.sig not in best or k < best[v.sig][0]:
                     best[v.sig] = (k, v)
-                if len(best) >= max_violations:
+                if len(best) >= max_violations or self.hung is not None:
                     break
         for sig, (k, v) in sorted(best.items()):
             self._record(v)
@@ -258,9 +265,16 @@ class Ctx(object):
             except Violation as v:
                 self._record(v)
                 self.suppressed.add(v.sig)
-            except hypothesis.errors.Flaky as e:  # pragma: no cover
-                self._record(Violation("%s/%s/flaky" % (self.pid, check_name), check_name, None, repr(e)))
-                return
+                if self.hung is not None:
+                    return
+            except Exception as e:  # noqa
+                if self.hung is not None:  # shrinking was cut short after a hang: report the hanging case itself
+                    self._record(self.hung)
+                    return
+                if isinstance(e, hypothesis.errors.Flaky):
+                    self._record(Violation("%s/%s/flaky" % (self.pid, check_name), check_name, None, repr(e)))
+                    return
+                raise
 
     def _record(self, v):
         self.violations.append({"sig": v.sig, "check": v.check, "case": jsonable(v.case), "detail": v.detail})
